@@ -18,6 +18,9 @@ CASES = {
     'pickle-multi': (A.Saver, 'multi', 200),
     'pickle-blob': (A.Saver, 'blob', 300),
     'json-small': (A.JSaver, 'small', 3),
+    'pickle-nonascii': (A.USaver, 'small', 3),
+    'json2-small': (A.MSaver, 'small', 3),
+    'json2-multi': (A.MSaver, 'multi', 40),
     'json-multi': (A.JSaver, 'multi', 40),
     'pickle-unpicklable0': (A.Saver, 'unpicklable0', 0),
     'pickle-unpicklable1': (A.Saver, 'unpicklable1', 0),
@@ -33,7 +36,7 @@ def mk_task(case: str):
 
 def value_of(case: str, epoch: int):
     cls, kind, n = CASES[case]
-    return ('R', cls.__qualname__, kind, n, epoch, A._result_payload(kind, n))
+    return ('R', cls.__qualname__, kind, n, epoch, A._result_payload(kind, n, epoch))
 
 
 def tmpdir(prefix: str) -> str:
